@@ -302,6 +302,8 @@ theorem verified_safe (F : TFacts) (a : J) {p : Prog α} (hp : OnlyCalls (fun c 
 
 theorem isPure_needProp (F : TFacts) (site : String) (v : J) (p : String) : isPure (needProp F site v p) = true := by
   unfold needProp; split <;> rfl
+theorem isPure_needPropE (F : TFacts) (v : J) (p : String) : isPure (needPropE F v p) = true := by
+  unfold needPropE; split <;> rfl
 theorem isPure_needVal (site : String) (o : Option J) : isPure (needVal site o) = true := by
   unfold needVal; split <;> rfl
 
@@ -361,13 +363,13 @@ theorem findMe_true (F : TFacts) (site : String) (xs : List J) (me : Iri) (init 
 def verifyTail (F : TFacts) (actorIRI : Iri) (activityActors : List J) (t : Option J) : Prog Unit := do
   let t ← needVal "accept: IsOrExtends on nil value" t
   if !F.isOrExt "Follow" (typeName t) then Prog.fail .lib else do
-    let actors ← needProp F "accept: actors.Begin() on nil actor property of the stored Follow" t "actor"
+    let actors ← needPropE F t "actor"
     let me ← (if actors.isEmpty then pure actorIRI else strOf "accept: actorIRI.String() on nil" actorIRI)
     let ok ← findMe F "accept: id.String() on nil" actors me
     if !ok then Prog.fail .lib else do
       let acceptIds ← idsM F activityActors
       let acceptIds ← strsOf "accept: id.String() on nil" acceptIds
-      let followObj ← needProp F "accept: followObj.Begin() on nil object property of the stored Follow" t "object"
+      let followObj ← needPropE F t "object"
       let objIds ← idsM F followObj
       let objIds ← strsOf "accept: id.String() on nil" objIds
       if acceptIds.all objIds.contains then pure () else Prog.fail .lib
@@ -382,7 +384,7 @@ theorem verifyTail_pure (F : TFacts) (actorIRI : Iri) (aa : List J) (t : Option 
   show isPure (if _ then _ else _) = true
   split
   · rfl
-  · apply isPure_bind (isPure_needProp _ _ _ _); intro actors
+  · apply isPure_bind (isPure_needPropE _ _ _); intro actors
     apply isPure_bind
     · show isPure (if _ then _ else _) = true
       split
@@ -395,7 +397,7 @@ theorem verifyTail_pure (F : TFacts) (actorIRI : Iri) (aa : List J) (t : Option 
     · rfl
     · apply isPure_bind (isPure_liftLib _); intro acceptIds
       apply isPure_bind (isPure_strsOf _ _); intro acceptIds
-      apply isPure_bind (isPure_needProp _ _ _ _); intro followObj
+      apply isPure_bind (isPure_needPropE _ _ _); intro followObj
       apply isPure_bind (isPure_liftLib _); intro objIds
       apply isPure_bind (isPure_strsOf _ _); intro objIds
       show isPure (if _ then _ else _) = true
@@ -417,9 +419,9 @@ theorem verifyTail_ret (F : TFacts) (actorIRI : Iri) (aa : List J) (t : J)
   by_cases hf : F.isOrExt "Follow" (typeName t) = true
   · simp only [hf, Bool.not_true, Bool.false_eq_true, if_false] at h
     cases hpa : prop F t "actor" with
-    | none => simp [needProp, hpa] at h
+    | none => simp [needPropE, hpa] at h
     | some actors =>
-      simp only [needProp, hpa, bind_ret] at h
+      simp only [needPropE, hpa, bind_ret] at h
       -- `me` is the inbox's actor
       have hme : ∀ (k : Iri → Prog Unit),
           ((if actors.isEmpty then (pure actorIRI : Prog Iri) else strOf "accept: actorIRI.String() on nil" actorIRI) >>= k) = .ret () →
@@ -498,15 +500,17 @@ theorem acceptFindFollow_only (F : TFacts) (box : Iri) (op : List J) (actorIRI :
     split
     · exact .ret _
     · apply OnlyCalls.bind (OnlyCalls.of_pure (isPure_liftLib _)); intro followId
-      apply OnlyCalls.bind (OnlyCalls.of_pure (isPure_needProp _ _ _ _)); intro actors
-      apply OnlyCalls.bind
-      · show OnlyCalls accNeutral (if _ then _ else _)
-        split
-        · exact .ret _
-        · exact OnlyCalls.of_pure (isPure_strOf _ _)
-      intro me
-      apply OnlyCalls.bind (OnlyCalls.of_pure (findMe_pure _ _ _ _)); intro hit
-      exact .ret _
+      unfold acceptMatchFollow
+      split
+      · exact .ret _
+      · apply OnlyCalls.bind
+        · show OnlyCalls accNeutral (if _ then _ else _)
+          split
+          · exact .ret _
+          · exact OnlyCalls.of_pure (isPure_strOf _ _)
+        intro me
+        apply OnlyCalls.bind (OnlyCalls.of_pure (findMe_pure _ _ _ _)); intro hit
+        exact .ret _
 
 theorem acceptUpdateFollowing_noGet (F : TFacts) (actorIRI : Iri) (aa : List J) :
     OnlyCalls (fun c => ∀ k, c ≠ .get k) (acceptUpdateFollowing F actorIRI aa) := by
